@@ -275,6 +275,10 @@ Section Layout.
                                         | MAll p => (true, [(p, [])])
                                         | MParts ps => (false, map (fun q => (fst q, values_mask (snd q) val_src)) ps)
                                         end)) pnames) fids,
-        map (sig_keys r) pnames,
+        map (fun pn => map (fun fid =>
+               match sig_match_loop r fid pn 0 [] with
+               | MAll p => (true, (true, [(p, [])]))
+               | MParts ps => (sig_contributes (MParts ps), (false, map (fun q => (fst q, values_mask (snd q) val_src)) ps))
+               end) fids) pnames,
         kms, cols, get_gflp_idx (m_decls m) 0, grads_len nfl).
 End Layout.
